@@ -122,6 +122,7 @@ type world struct {
 	propOverride string
 	sawLI        bool
 	seenImages   map[uint64]bool
+	deferred     *core.Violation
 }
 
 type ioErrPlan struct {
@@ -152,6 +153,10 @@ func (w *world) fail(prop, oracle, sig string, format string, args ...any) {
 	if w.propOverride != "" && (prop == "C01" || prop == "C02" || prop == "C03" || prop == "C09") {
 		prop = w.propOverride
 		oracle = "replay-" + oracle
+	} else if w.cfg.Prop == "C12" && (prop == "C01" || prop == "C09") {
+		// C12 is decided through the store: with adversarial keys any collision, order inversion, decode
+		// mismatch or leak between the key spaces shows as a divergence from the sorted-map model
+		prop = "C12"
 	}
 	w.out.Fail(prop, oracle, sig, w.step, format, args...)
 }
@@ -478,8 +483,17 @@ func (w *world) applyBatch(r *replica, n int) bool {
 			}
 		}
 		if cat, msg := model.CheckResult(w.exp[r.pos+i], res[i].Result.Value, cr); cat != "" {
-			w.fail(prop, "result", "result:"+e.spec.T+":"+cat, "replica %d entry %d (%s, batch of %d, offset %d): %s", r.id, e.index, e.spec.T, n, i, msg)
-			return false
+			if w.cfg.Prop == "C03" && w.propOverride == "" {
+				// differential runs: keep going so that the replica comparison can show whether the answer
+				// depends on batching; the model mismatch is reported at the end if nothing else fails
+				if w.deferred == nil {
+					w.deferred = &core.Violation{Prop: prop, Oracle: "result", Sig: "result:" + e.spec.T + ":" + cat, Step: w.step,
+						Msg: fmt.Sprintf("replica %d entry %d (%s, batch of %d, offset %d): %s", r.id, e.index, e.spec.T, n, i, msg)}
+				}
+			} else {
+				w.fail(prop, "result", "result:"+e.spec.T+":"+cat, "replica %d entry %d (%s, batch of %d, offset %d): %s", r.id, e.index, e.spec.T, n, i, msg)
+				return false
+			}
 		}
 		if e.spec.T == "txn" && len(res[i].Result.Data) == 0 {
 			// C10: every acknowledged mutation reports a non-zero revision, including a
